@@ -35,6 +35,7 @@ type c08CompileEnv struct {
 
 func (e c08CompileEnv) AddS(a, b string) string { return a + "+" + b }
 func (e c08CompileEnv) Twice(i int) int         { return 2 * i }
+func (e c08CompileEnv) AddI(a, b int) int       { return a + b + 100 }
 
 type c08CompileThread struct {
 	src      string
@@ -101,9 +102,16 @@ func c08CompileJobs() []c08CompileJob {
 	mapEnv := map[string]interface{}{"S": "a", "I": 1, "A": []int{1, 2}}
 	sharedMapOpt := expr.Env(mapEnv)
 	undef := expr.AllowUndefinedVariables()
+	opS, opSI := expr.Operator("+", "AddS"), expr.Operator("+", "AddS", "AddI") // two tables for one operator, overlapping
 	return []c08CompileJob{
+		{`S + Tag + (I + 1 > 0 ? "x" : "y")`, func(y *c08Yield) []expr.Option {
+			return []expr.Option{sharedEnvOpt, opSI, opS, expr.Patch(y)}
+		}},
+		{`[len(5..1), I, len(3..2)]`, func(y *c08Yield) []expr.Option {
+			return []expr.Option{sharedEnvOpt, expr.Patch(y)}
+		}},
 		{`S + Tag + "x"`, func(y *c08Yield) []expr.Option {
-			return []expr.Option{sharedEnvOpt, expr.Operator("+", "AddS"), expr.Patch(y)}
+			return []expr.Option{sharedEnvOpt, opS, expr.Patch(y)} // the same option VALUE as in the job above
 		}},
 		{`Twice(I) in 1..9 and S matches "^s"`, func(y *c08Yield) []expr.Option {
 			return []expr.Option{sharedEnvOpt, expr.Patch(y)}
@@ -142,7 +150,7 @@ func c08CompileScenarios(r *report.Run, order *int64) (schedules, steps int64, c
 			combos = append(combos, []int{a, b})
 		}
 	}
-	combos = append(combos, []int{0, 3, 4}, []int{2, 2, 3}, []int{1, 3, 5}, []int{3, 5, 5})
+	combos = append(combos, []int{2, 5, 6}, []int{4, 4, 5}, []int{3, 5, 7}, []int{5, 7, 7}, []int{0, 0, 2}, []int{1, 1, 3})
 	for _, combo := range combos {
 		bound := 2
 		if len(combo) == 3 {
